@@ -270,6 +270,49 @@ func evalFrameSpec(w *World, sp *Specs, fs *FrameSpec) *FrameResult {
 		}
 		summary["functions ranging over a map"] = dedup(found)
 	}
+	if fs.HasGlobalReads {
+		found := map[string][]string{}
+		for f := range fp.Funcs {
+			if f.Name() == "init" || strings.HasPrefix(f.Name(), "init#") {
+				continue
+			}
+			for _, b := range f.Blocks {
+				for _, in := range b.Instrs {
+					u, ok := in.(*ssa.UnOp)
+					if !ok {
+						continue
+					}
+					g, ok := u.X.(*ssa.Global)
+					if !ok || !inRepo(g.Pkg.Pkg.Path()) {
+						continue
+					}
+					switch g.Type().(*types.Pointer).Elem().Underlying().(type) {
+					case *types.Map, *types.Slice, *types.Pointer, *types.Chan:
+						name := shortPkg(g.Pkg.Pkg.Path()) + "." + g.Name()
+						found[name] = append(found[name], funcKey(f))
+					}
+				}
+			}
+		}
+		var names []string
+		for n := range found {
+			names = append(names, n)
+		}
+		sort.Strings(names)
+		summary["mutable-typed package-level variables read"] = names
+		for _, n := range names {
+			ok := false
+			for _, a := range fs.GlobalReadsOnly {
+				if a == n {
+					ok = true
+				}
+			}
+			if !ok {
+				res.OK = false
+				res.Violations = append(res.Violations, fmt.Sprintf("package-level variable %s (a map/slice/pointer: shared mutable state) is read in %v but is not in the reviewed list %v", n, dedup(found[n]), fs.GlobalReadsOnly))
+			}
+		}
+	}
 	if len(fs.GlobalAddrOnly) > 0 {
 		for g, users := range fp.GlobalAddr {
 			for _, u := range users {
